@@ -211,6 +211,12 @@ impl Slots {
         // the writer thread :-(.
         let prev = self.control.swap(gen, SeqCst);
         debug_assert_eq!(IDLE, prev, "Left control in wrong state");
+        #[cfg(arc_swap_verif)]
+        verif_rt::probe(verif_rt::probes::GEN_PUBLISHED, true);
+        #[cfg(arc_swap_verif)]
+        if discard {
+            verif_rt::probe(verif_rt::probes::GEN_WRAP, false);
+        }
 
         (gen, discard)
     }
@@ -226,8 +232,18 @@ impl Slots {
         loop {
             match control & TAG_MASK {
                 // Nothing to help with
+                #[cfg(arc_swap_verif)]
+                IDLE if control == IDLE => {
+                    verif_rt::probe(verif_rt::probes::HELP_IDLE, false);
+                    break;
+                }
                 IDLE if control == IDLE => break,
                 // Someone has already helped out with that, so we have nothing to do here
+                #[cfg(arc_swap_verif)]
+                REPLACEMENT_TAG => {
+                    verif_rt::probe(verif_rt::probes::HELP_ALREADY_REPLACED, false);
+                    break;
+                }
                 REPLACEMENT_TAG => break,
                 // Something is going on, let's have a better look.
                 GEN_TAG => {
@@ -244,12 +260,16 @@ impl Slots {
                         // Acquire for the same reason as on the top.
                         let new_control = who.control.load(SeqCst);
                         if new_control == control {
+                            #[cfg(arc_swap_verif)]
+                            verif_rt::probe(verif_rt::probes::HELP_OTHER_ADDR, false);
                             // The other thread is doing something, but to some other ArcSwap, so
                             // we don't care. Cool, done.
                             break;
                         } else {
                             // The control just changed under our hands, we don't know what to
                             // trust, so retry.
+                            #[cfg(arc_swap_verif)]
+                            verif_rt::probe(verif_rt::probes::HELP_CONTROL_CHANGED, false);
                             control = new_control;
                             continue;
                         }
@@ -283,6 +303,8 @@ impl Slots {
                         .compare_exchange(control, space_addr, SeqCst, SeqCst)
                     {
                         Ok(_) => {
+                            #[cfg(arc_swap_verif)]
+                            verif_rt::probe(verif_rt::probes::HELP_SUCCEEDED, false);
                             // We have successfully sent our replacement out (Release) and got
                             // their space in return (Acquire on that load above).
                             self.space_offer.store(their_space, SeqCst);
@@ -292,6 +314,8 @@ impl Slots {
                             break;
                         }
                         Err(new_control) => {
+                            #[cfg(arc_swap_verif)]
+                            verif_rt::probe(verif_rt::probes::HELP_CAS_LOST, false);
                             // Something has changed in between. Let's try again, nothing changed
                             // (the replacement will get dropped at the end of scope, we didn't do
                             // anything with the spaces, etc.
@@ -314,6 +338,8 @@ impl Slots {
         // is observable by the other thread (but that's probably not necessary anyway?)
         let prev = self.slot.0.swap(ptr, SeqCst);
         debug_assert_eq!(Debt::NONE, prev);
+        #[cfg(arc_swap_verif)]
+        verif_rt::probe(verif_rt::probes::DEBT_WRITTEN, true);
 
         // Confirm by writing to the control (or discover that we got helped). We stop anyone else
         // from helping by setting it to IDLE.
@@ -333,5 +359,36 @@ impl Slots {
             // someone provided the replacement *and* paid the debt and we need just one of them).
             Err(replacement)
         }
+    }
+}
+
+#[cfg(arc_swap_verif)]
+impl Local {
+    /// Simulation knob: preset the per-thread generation counter (to reach the wrap-around).
+    pub(super) fn verif_set_generation(&self, gen: usize) {
+        self.generation.set(gen);
+    }
+}
+
+#[cfg(arc_swap_verif)]
+impl Slots {
+    /// Simulation observer: (control, slot, active_addr, space_offer), read without side effects.
+    pub(super) fn verif_snapshot(&self) -> (usize, usize, usize, usize) {
+        (
+            self.control.verif_peek(),
+            self.slot.0.verif_peek(),
+            self.active_addr.verif_peek(),
+            self.space_offer.verif_peek() as usize,
+        )
+    }
+
+    /// Simulation bookkeeping: name the locations for traces and statistics.
+    pub(super) fn verif_label(&self) {
+        use verif_rt::LocClass;
+        self.control.verif_label(LocClass::Control, 0);
+        self.slot.0.verif_label(LocClass::HelpSlot, 0);
+        self.active_addr.verif_label(LocClass::ActiveAddr, 0);
+        self.handover.0.verif_label(LocClass::Handover, 0);
+        self.space_offer.verif_label(LocClass::SpaceOffer, 0);
     }
 }
